@@ -81,8 +81,9 @@ class LActor:
             self.sh.prefix_broken = len(self.sh.tokens)
 
 
-def make_actors(per_thread_factory, script):
+def make_actors(per_thread_factory, script, timeouts=0):
     sh = Shared(per_thread_factory(), script)
+    sh.world.poll_timeouts = timeouts
     actors = [QActor(sh, j) for j in range(len(sh.ids))] + [WActor(sh), LActor(sh)]
     for a in actors:
         a.sh = sh
@@ -108,6 +109,9 @@ def finish(actors):
         sent, expect = w.sent(), w.expect
         msgs_hex = ",".join((m.as_bytes().hex() if not isinstance(m, wpath.Broken) else "-") for m in sh.msgs)
         line = "WPATH " + msgs_hex + " | " + " ".join(sh.tokens)
+        full_line = line
+        if w.used_timeout:
+            line = None            # (the writer's poll timing out is not an event of the model: such runs are judged by the oracle only)
         real = f"sent={sent.hex()} crashed={1 if w.crash else 0}"
         fail = None
         if w.crash:
@@ -122,7 +126,7 @@ def finish(actors):
             fail = {"what": "after everything drained the transport has not received exactly the queued messages",
                     "kind": "incomplete", "sent": sent.hex(), "expected": expect.hex()}
         if fail:
-            fail["line"] = line[:3000]
+            fail["line"] = full_line[:3000] + (" (with the writer's poll of the empty queue timing out)" if w.used_timeout else "")
         return fail, line, real
     finally:
         w.close()
@@ -142,6 +146,11 @@ def families(tier: str):
         (lambda: [[small(0)], [big(1)]], 2),
         (lambda: [[small(0), wpath.Broken(), small(2)]], 2),
         (lambda: [[small(0), wpath.broken_typed(), small(2)]], 1),
+        # application requests and watchdog messages mixed (queueing order is the only order)
+        (lambda: [[wpath.make_other(0), wpath.make_other(1), small(2)]], 1),
+        (lambda: [[wpath.make_other(0)], [small(1), wpath.make_other(2)]], 2),
+        # the writer's poll of the empty queue times out while bytes are still waiting to be sent
+        (lambda: [[small(0)], [small(1)]], 2, 1),
     ]
     if tier != "quick":
         fams += [
@@ -181,20 +190,23 @@ def run(res: Result, tier: str, seed: int):
     fails, lines, reals = [], [], []
     total = 0
     cap = 1500 if tier == "quick" else 40000
-    for fam, bound in families(tier):
+    for famspec in families(tier):
+        fam, bound = famspec[0], famspec[1]
+        tmo = famspec[2] if len(famspec) > 2 else 0
         scripts = SCRIPTS if tier != "quick" else SCRIPTS[:8] + [SCRIPTS[9]]
         for script in scripts:
             def on_run(actors, trace):
                 f, line, real = finish(actors)
-                lines.append(line)
-                reals.append(real)
+                if line is not None:
+                    lines.append(line)
+                    reals.append(real)
                 if f:
                     f["script"] = script
                     fails.append(f)
                     return True
                 return False
             b = bound if tier != "quick" else min(bound, 2)
-            runs, _ = linesched.explore(lambda: make_actors(fam, script), b, on_run, max_runs=cap // len(scripts) + 50)
+            runs, _ = linesched.explore(lambda: make_actors(fam, script, tmo), b, on_run, max_runs=cap // len(scripts) + 50)
             total += runs
             res.count(f"schedules bound {b}", runs)
             if len(fails) >= 5:
@@ -207,7 +219,8 @@ def run(res: Result, tier: str, seed: int):
         def fam():
             per = [[] for _ in range(nthr)]
             for i in range(n):
-                m = (wpath.Broken() if rng.random() < 0.5 else wpath.broken_typed()) if rng.random() < 0.1 else wpath.make_message(i, rng.choice([0, 0, 10, 80]))
+                m = (wpath.Broken() if rng.random() < 0.5 else wpath.broken_typed()) if rng.random() < 0.1 else \
+                    wpath.make_other(i) if rng.random() < 0.3 else wpath.make_message(i, rng.choice([0, 0, 10, 80]))
                 per[rng.randrange(nthr)].append(m)
             return [p for p in per if p] or [[wpath.make_message(0)]]
         script = [rng.choice([1, 2, 3, 7, 20, 50, "all", "soft", "intr", "nobufs"]) for _ in range(rng.randrange(0, 8))]
@@ -217,8 +230,9 @@ def run(res: Result, tier: str, seed: int):
         prefix = [rng.randrange(len(actors)) for _ in range(80)]
         acts, trace = linesched.execute(lambda: actors, prefix)
         f, line, real = finish(acts)
-        lines.append(line)
-        reals.append(real)
+        if line is not None:
+            lines.append(line)
+            reals.append(real)
         total += 1
         if f:
             f["script"] = script
